@@ -129,3 +129,111 @@ pub fn syntactic_family(tier: Tier) -> Vec<Item> {
     }
     out
 }
+
+// ------------------------------------------------------------------------------------------
+// well-typed family (P_wt): binding scenarios for the navigation features
+// ------------------------------------------------------------------------------------------
+use crate::gen::refsem;
+
+fn rich_main_body() -> Vec<RStmt> {
+    vec![
+        RStmt::Assign(vname("i"), eint(0)),
+        RStmt::While(
+            bin(Op::Lst, evar("i"), eint(2)),
+            Arc::new(RStmt::Block(vec![
+                RStmt::Assign(idx(vname("a"), evar("i")), bin(Op::Add, evar("j"), RExpr::Neg(Arc::new(evar("i"))))),
+                RStmt::Assign(idx(idx(vname("m"), evar("i")), RExpr::Paren(Arc::new(evar("j")))), RExpr::Var(idx(vname("a"), bin(Op::Sub, evar("i"), evar("i"))))),
+                RStmt::If(
+                    bin(Op::Equ, RExpr::Var(idx(vname("a"), eint(0))), evar("j")),
+                    Arc::new(RStmt::Call("q".into(), vec![bin(Op::Mul, evar("i"), evar("j")), evar("j"), evar("a")])),
+                    Some(Arc::new(RStmt::Call("r".into(), vec![RExpr::Var(idx(vname("m"), eint(1)))]))),
+                ),
+                RStmt::Assign(vname("i"), bin(Op::Add, evar("i"), eint(1))),
+            ])),
+        ),
+        RStmt::Call("printi".into(), vec![RExpr::Var(idx(vname("a"), eint(1)))]),
+        RStmt::Call("readi".into(), vec![evar("j")]),
+    ]
+}
+
+/// Declarations of the scenario programs; `shadow`: procedure r gets a local variable named
+/// like the global procedure q and a parameter named like the type A's sibling.
+fn scenario_decls(shadow: bool, alias: bool) -> Vec<RDecl> {
+    let mut d = vec![
+        RDecl::Type { name: "A".into(), ty: arr(2, tname("int")) },
+        RDecl::Type { name: "M".into(), ty: arr(3, tname("A")) },
+    ];
+    if alias {
+        d.push(RDecl::Type { name: "B".into(), ty: tname("A") });
+    }
+    d.push(proc_q());
+    let mut r_vars = vec![RVarDecl { name: "i".into(), ty: tname("int") }];
+    let mut r_body = vec![RStmt::Assign(vname("i"), RExpr::Var(idx(vname("a"), eint(0))))];
+    if shadow {
+        r_vars.push(RVarDecl { name: "q".into(), ty: tname("int") });
+        r_vars.push(RVarDecl { name: "v".into(), ty: arr(2, tname("int")) });
+        r_body.push(RStmt::Assign(vname("q"), bin(Op::Add, evar("i"), RExpr::Var(idx(vname("v"), evar("q"))))));
+    }
+    d.push(RDecl::Proc {
+        name: "r".into(),
+        params: vec![RParam { is_ref: true, name: "a".into(), ty: tname(if alias { "B" } else { "A" }) }],
+        vars: r_vars,
+        body: r_body,
+    });
+    d.push(main_with(rich_main_body()));
+    d
+}
+
+fn permutations<T: Clone>(v: &[T]) -> Vec<Vec<T>> {
+    if v.len() <= 1 {
+        return vec![v.to_vec()];
+    }
+    let mut out = vec![];
+    for i in 0..v.len() {
+        let mut rest = v.to_vec();
+        let x = rest.remove(i);
+        for mut p in permutations(&rest) {
+            p.insert(0, x.clone());
+            out.push(p);
+        }
+    }
+    out
+}
+
+pub fn is_well_typed(p: &RProgram) -> bool {
+    refsem::analyze(p).errors.is_empty()
+}
+
+/// Well-typed programs: every declaration order of the scenario programs that keeps types in
+/// front of their uses, with and without shadowing / alias types, plus every error-free member
+/// of the syntactic family.
+pub fn typed_family(tier: Tier) -> Vec<Item> {
+    let mut out = vec![];
+    for (shadow, alias) in [(false, false), (true, false), (false, true), (true, true)] {
+        let decls = scenario_decls(shadow, alias);
+        let perms = permutations(&decls);
+        let step = tier.pick(if alias { 6 } else { 1 }, 1);
+        let mut k = 0;
+        for p in perms {
+            let prog = RProgram { decls: p };
+            if !is_well_typed(&prog) {
+                continue;
+            }
+            k += 1;
+            if k % step != 0 {
+                continue;
+            }
+            let f = main_index(&prog);
+            out.push(Item { family: "scenario-permutations", program: prog, focus_decl: f });
+        }
+    }
+    for it in syntactic_family(tier) {
+        if it.family == "G1-whole-programs" {
+            continue;
+        }
+        if is_well_typed(&it.program) {
+            out.push(it);
+        }
+    }
+    out
+}
